@@ -62,6 +62,74 @@ def irfft_calls(repo, fi):
     return out
 
 
+def _window_box(fi, fast_call, want_cases=False):
+    """Evaluate, for small (nsx, nsw) and both modes, the argument A of ns_optim_fft and the returned window xw[..., first:first + nout] of convolve written as
+    `first, nout = ...` per mode followed by one transform: -> ((nsx, nsw, mode, A, first) of the first case with A < nsx + nsw - 1 - first or A < first + nout | None, cases)
+    or None when the function is not written this way."""
+    from rules.C17 import _small_eval
+    rets = [r for r in ast.walk(fi.node) if isinstance(r, ast.Return) and r.value is not None]
+    win = None
+    for r in rets:
+        v = r.value
+        if isinstance(v, ast.Subscript):
+            sl = v.slice.elts[-1] if isinstance(v.slice, ast.Tuple) else v.slice
+            if isinstance(sl, ast.Slice) and sl.lower is not None and sl.upper is not None and sl.step is None:
+                win = (sl.lower, sl.upper)
+    if win is None:
+        return None
+    n, bad, cases = 0, None, []
+    for mode in ("full", "same"):
+        for nsx in range(1, 14):
+            for nsw in range(1, 14):
+                env = {"nsx": nsx, "nsw": nsw}
+
+                def run(stmts):
+                    for st in stmts:
+                        if isinstance(st, ast.Assign) and isinstance(st.value, ast.Call) and any(c is fast_call for c in ast.walk(st.value)):
+                            return "stop"
+                        if isinstance(st, ast.If):
+                            t = src(st.test).replace(" ", "").replace('"', "'")
+                            if t in ("mode=='full'", "mode=='same'"):
+                                r_ = run(st.body if t == f"mode=='{mode}'" else st.orelse)
+                                if r_:
+                                    return r_
+                                continue
+                            if any(isinstance(x, ast.Name) and isinstance(x.ctx, ast.Store) and x.id in ("first", "nout", "ns", "nsx", "nsw") for b_ in st.body + st.orelse for x in ast.walk(b_)):
+                                return "unknown"
+                            continue   # a branch that does not touch the lengths (array module selection ..)
+                        if isinstance(st, ast.Assign) and len(st.targets) == 1:
+                            tg, v = st.targets[0], st.value
+                            try:
+                                if isinstance(tg, ast.Name):
+                                    if isinstance(v, ast.Subscript) and src(v).endswith(".shape[-1]"):
+                                        continue   # nsx / nsw themselves
+                                    env[tg.id] = _small_eval(v, env)
+                                elif isinstance(tg, ast.Tuple) and isinstance(v, ast.Tuple) and len(tg.elts) == len(v.elts):
+                                    for a_, b_ in zip(tg.elts, v.elts):
+                                        env[a_.id] = _small_eval(b_, env)
+                            except Exception:
+                                pass
+                        elif isinstance(st, ast.Return):
+                            return "returned"
+                    return None
+                res = run([s_ for s_ in fi.node.body if not (isinstance(s_, ast.Expr) and isinstance(s_.value, ast.Constant))])
+                if res != "stop":
+                    return None
+                try:
+                    A = _small_eval(fast_call.args[0], env)
+                    first = _small_eval(win[0], env)
+                    stop = _small_eval(win[1], env)
+                except Exception:
+                    return None
+                n += 1
+                cases.append((nsx, nsw, mode, A, first, stop))
+                if bad is None and (A < nsx + nsw - 1 - first or A < stop):
+                    bad = (nsx, nsw, mode, A, first)
+    if want_cases:
+        return cases
+    return bad, n
+
+
 def d1_irfft(ctx):
     ctx.rule("D1", "irfft in convolve/fshift is given the original length n; convolve pads both operands to that length")
     repo = ctx.repo
@@ -115,6 +183,18 @@ def d1_irfft(ctx):
                         if "nsx" not in ev.env or "nsw" not in ev.env:
                             raise AnalysisError("convolve: operand lengths nsx / nsw not found")
                         d = (arg - (ev.env["nsx"] + ev.env["nsw"] - Poly.const(1))).const_value()
+                        if d is None or d < 0:
+                            # a transform shorter than the linear convolution is still exact on the RETURNED window [first, first + nout) when the wrapped tail
+                            # (linear samples ns .. nsx + nsw - 2, folded onto 0 ..) stays below `first`:  ns >= nsx + nsw - 1 - first  and  ns >= first + nout
+                            w_ = _window_box(fi, cc)
+                            if w_ is not None:
+                                bad_, n_ = w_
+                                ctx.check(bad_ is None, fi, cc, f"{src(cc)[:60]}: window-exact on {n_} (nsx, nsw, mode) cases",
+                                          "the transform is long enough for the returned window: no wrapped sample reaches it",
+                                          (f"transform length ns_optim_fft({bad_[3]}) for nsx={bad_[0]}, nsw={bad_[1]}, mode='{bad_[2]}' can be {bad_[3]}: the linear convolution has {bad_[0] + bad_[1] - 1} samples, "
+                                           f"its last {bad_[0] + bad_[1] - 1 - bad_[3]} wrap onto samples 0.. and the returned window starts at {bad_[4]} - sample(s) of the tail are added to the "
+                                           f"start of the output (needs at least nsx + nsw - 1 - first = {bad_[0] + bad_[1] - 1 - bad_[4]})") if bad_ else "", key="nowrap", name_free=True)
+                                continue
                         ctx.check(d is not None and d >= 0, fi, cc, cc, "padded length >= nsx + nsw - 1 (linear, not circular, convolution)",
                                   f"padded length is the fast size of {arg}: shorter than nsx + nsw - 1, the convolution wraps around", key="nowrap")
             else:
@@ -215,7 +295,19 @@ def _same_crop_absolute(ctx, repo, fi, cfg):
         if mode:
             by_mode[mode] = r
     if "same" not in by_mode:
-        raise AnchorMissing("convolve: return under mode == 'same' not found")
+        # one return for both modes, xw[..., first:first + nout], the bounds assigned per mode before the transform: decided on a box of lengths
+        opt = [c for c in find(fi.node, ast.Call) if call_name(c) == "ns_optim_fft"]
+        cases = _window_box(fi, opt[0], want_cases=True) if opt else None
+        if not cases:
+            raise AnchorMissing("convolve: return under mode == 'same' not found")
+        bad_same = next((c for c in cases if c[2] == "same" and (c[4] != (c[1] - 1) // 2 or c[5] - c[4] != c[0])), None)
+        bad_full = next((c for c in cases if c[2] == "full" and (c[4] != 0 or c[5] != c[0] + c[1])), None)
+        ctx.check(bad_same is None, fi, fi.node, f"'same' window on {sum(1 for c in cases if c[2] == 'same')} (nsx, nsw) cases", "'same' returns nsx samples starting at (nsw - 1) // 2 (numpy's centring)",
+                  f"'same' returns samples {bad_same[4]}:{bad_same[5]} for nsx={bad_same[0]}, nsw={bad_same[1]}; expected {(bad_same[1] - 1) // 2}:{(bad_same[1] - 1) // 2 + bad_same[0]}" if bad_same else "",
+                  key="crop-same", name_free=True)
+        ctx.check(bad_full is None, fi, fi.node, f"'full' window on {sum(1 for c in cases if c[2] == 'full')} (nsx, nsw) cases", "'full' returns the first nsx + nsw samples",
+                  f"'full' returns samples {bad_full[4]}:{bad_full[5]} for nsx={bad_full[0]}, nsw={bad_full[1]}; expected 0:{bad_full[0] + bad_full[1]}" if bad_full else "", key="crop-full", name_free=True)
+        return
 
     def last_axis_slice(r):
         v = expand_name(du, r.value, r) if isinstance(r.value, ast.Name) else r.value
@@ -499,6 +591,34 @@ def d4_half_spectrum(ctx):
                   f"[{par} ns] two-sided frequency scale has {L + cnt} entries, expected {ns}", key=f"fscale-len:{par}")
 
 
+def _module_value(tree, name, depth=0):
+    """The expression a module-level name is bound to (once), with the module-level names inside it substituted (tuple assignments from one call are kept as the call
+    indexed by position: a, b = f(..) -> f(..)[0], f(..)[1])."""
+    import copy
+    binds = []
+    for st in tree.body:
+        if isinstance(st, ast.Assign):
+            for t in st.targets:
+                if isinstance(t, ast.Name) and t.id == name:
+                    binds.append(st.value)
+                elif isinstance(t, ast.Tuple):
+                    for i, e in enumerate(t.elts):
+                        if isinstance(e, ast.Name) and e.id == name:
+                            binds.append(st.value.elts[i] if isinstance(st.value, ast.Tuple) and len(st.value.elts) == len(t.elts)
+                                         else ast.Subscript(value=st.value, slice=ast.Constant(value=i), ctx=ast.Load()))
+    if len(binds) != 1 or depth > 4:
+        return None
+
+    class X(ast.NodeTransformer):
+        def visit_Name(self, node):
+            if isinstance(node.ctx, ast.Load) and node.id != name:
+                v = _module_value(tree, node.id, depth + 1)
+                if v is not None:
+                    return v
+            return node
+    return X().visit(copy.deepcopy(binds[0]))
+
+
 def d5_fscale(ctx):
     ctx.rule("D5", "fscale[k] == k / ns / si, k in arange(0, floor(ns/2)+1); ns_optim_fft uses left searchsorted on the sorted 2^a3^b table")
     repo = ctx.repo
@@ -527,6 +647,7 @@ def d5_fscale(ctx):
     ss = [c for c in find(fo.node, ast.Call) if call_name(c) == "searchsorted"]
     if not ss:
         return _fast_size_enumeration(ctx, repo, fo)
+    module_tbl = None
     side = kwarg(ss[0], "side") if ss else None
     oks = bool(ss) and (side is None or const_value(side) == (True, "left"))
     ctx.check(oks, fo, ss[0] if ss else fo.node, ss[0] if ss else "searchsorted", "first table entry >= ns is returned (an exact 2^a3^b size maps to itself)",
@@ -537,10 +658,25 @@ def d5_fscale(ctx):
         tbl = expand_name(duo, ss[0].args[0], ss[0]) if ss[0].args else None
         picked = [sb for sb in find(fo.node, ast.Subscript) if any(n is ss[0] for n in ast.walk(sb.slice))]
         same = bool(picked) and tbl is not None and norm(expand_name(duo, picked[0].value, picked[0])) == norm(tbl)
+        if tbl is not None:
+            # a table computed once at import: module-level names inside it are replaced by their module-level definitions
+            import copy as _copy
+
+            class _MV(ast.NodeTransformer):
+                def visit_Name(self, node):
+                    if isinstance(node.ctx, ast.Load):
+                        v = _module_value(fo.module.tree, node.id)
+                        if v is not None:
+                            return v
+                    return node
+            tbl2 = _MV().visit(_copy.deepcopy(tbl))
+            if norm(tbl2) != norm(tbl):
+                module_tbl = tbl2
         ctx.check(same, fo, ss[0], ss[0], "the size is picked from the table that was searched", "the table searched and the table indexed differ", key="same-table")
         srt = tbl is not None and isinstance(tbl, ast.Call) and call_name(tbl) in ("unique", "sort")
         ctx.check(srt, fo, fo.node, "np.unique(...)", "table is sorted ascending", "table is not sorted before the search", key="sorted")
-    bases = sorted({const_value(b.left)[1] for b in find(fo.node, ast.BinOp) if isinstance(b.op, ast.Pow) and const_value(b.left)[0]})
+    scope = [fo.node] + ([module_tbl] if module_tbl is not None else [])
+    bases = sorted({const_value(b.left)[1] for sc_ in scope for b in find(sc_, ast.BinOp) if isinstance(b.op, ast.Pow) and const_value(b.left)[0]})
     ctx.check(bases == [2, 3], fo, fo.node, f"bases {bases}", "sizes are 2^a 3^b", f"sizes are built from {bases}", key="bases")
 
 
